@@ -473,6 +473,7 @@ struct WorkerCounters {
     FILE* out = fdopen( fd, "w" );
     WorkerCounters cnt;
     std::uint64_t since_flush = 0;
+    std::set< std::string > reported;       // rule|key this worker has already minimised and reported
     for ( std::uint64_t i = first; i < runs; i += stride )
     {
         if ( now_s() > deadline ) { fprintf( out, "L %llu\n", (unsigned long long)i ); break; }
@@ -499,7 +500,7 @@ struct WorkerCounters {
                 if ( once.insert( v.property + "|" + v.rule + "|" + v.key ).second )
                     fprintf( out, "Y %s|%s|%s|%llu\n", v.property.c_str(), v.rule.c_str(), sanitize_line( v.key ).c_str(), (unsigned long long)i );
         }
-        else if ( const Violation* v = first_unknown( o, r, o.property ) )
+        else if ( const Violation* v = first_unknown( o, r, o.property ); v && reported.insert( v->rule + "|" + v->key ).second )
         {
             const std::string rule = v->rule;
             // gate 1: same plan, same process, same trace and same rule
@@ -912,7 +913,19 @@ int sim_main( int argc, char** argv, const Harness& h )
             info_lines.push_back( "INFO: run index " + std::to_string( idx ) + " aborted (sanitizer/signal); not counted against " + o.property );
     }
 
-    // ---- violations found by workers: gate 3 (fresh process)
+    // ---- violations found by workers: one report per rule and key (the run with the lowest index), gate 3 (fresh process)
+    {
+        std::map< std::string, Found > first_of;
+        for ( const auto& f : found )
+        {
+            auto it = first_of.find( f.rule + "|" + f.key );
+            if ( it == first_of.end() ) first_of.emplace( f.rule + "|" + f.key, f );
+            else if ( f.index < it->second.index ) { unlink( it->second.path.c_str() ); it->second = f; }
+            else if ( f.path != it->second.path ) unlink( f.path.c_str() );
+        }
+        found.clear();
+        for ( const auto& e : first_of ) found.push_back( e.second );
+    }
     for ( const auto& f : found )
     {
         if ( exit_code == 2 ) break;
